@@ -42,7 +42,10 @@ RULE = (
     "Hypothesis draws 0-3 data sets in generated order (mostly 2-3; formatter raw/json/quicklogger; selection = ALL or a subset of 5 core message "
     "types; continuous or 30 s subdivision), a history of update(msg|None) with clock steps dt in {0,1,16,31} s "
     "(flush period 15 s, subdivision 30 s, both read from the code), pause/resume, restart (stop, metadata update, "
-    "start of the next recording of the same collection), a final stop, and a schedule tape; the real DataCollection/DataSet/formatters run under a cooperative scheduler that owns every "
+    "start of the next recording of the same collection), direct trigger_write() calls of the recording thread, a "
+    "final stop, a schedule tape, the header layout of the messages (MessageHeader, or TimeCodeMessageHeader as a "
+    "Client(timecode=True) delivers; one layout per case) and the collection mode (writer thread, or "
+    "use_thread=False); the real DataCollection/DataSet/formatters run under a cooperative scheduler that owns every "
     "Event/Thread operation of the recording and the writer thread, with a virtual clock. Immediately after every "
     "stop() - before close(), the next start() or garbage collection could flush anything, all objects still "
     "referenced - and once more after close(), the "
@@ -52,7 +55,7 @@ RULE = (
     "Event/Thread operations (the plain code between two operations runs with the earlier or with the later one, by "
     "choice of the tape). Additionally schedules of small histories are enumerated depth-first with sleep-set "
     "reduction (an operation and a plain-code block of different threads commute): all schedules with any number "
-    "of preemptions before operations and at most b preemptions taken immediately after an operation. Quick: 11 fixed "
+    "of preemptions before operations and at most b preemptions taken immediately after an operation. Quick: 14 fixed "
     "histories (b=1, <=3000 schedules each) plus 16 Hypothesis-drawn histories with two flush deadlines (b=1, <=1000 "
     "each). Thorough: the fixed histories with b=1 and b=2, every history of <=4 updates with <=2 flush deadlines "
     "(with and without one pause/resume pair) with b=0 over a raw+json+quicklogger collection, continuous and "
@@ -333,9 +336,6 @@ def _read_ql(path, defs_path, hdr_cls=MessageHeader):
     return [(h.msg_count, bytes(h) + bytes(d)) for h, d in zip(r.headers, r.data)]
 
 
-READERS = {"raw": _read_raw, "json": _read_json}
-
-
 def run_case(datasets, history, tape, want_log=False, sleep_sets=False, max_after=None, opts=None) -> CaseInfo:
     """Execute one case; pure function of its arguments.  Raises Violation when C17 does not hold on it.
 
@@ -395,6 +395,9 @@ def run_case(datasets, history, tape, want_log=False, sleep_sets=False, max_afte
                 v = _compare(tag, fmt, got, exp_run[i], dontcare[i], frames, len(files), _dropped_stage(sched.log),
                              _restaged(sched.log))
                 if v is not None:
+                    if timecode and v.key.startswith("corrupt/"):
+                        v.key += "/timecode-header"
+                        v.what += "; the messages carry TimeCodeMessageHeader"
                     return v
             return None
 
@@ -622,10 +625,10 @@ def datasets_strategy():
     return sizes.flatmap(lambda n: st.lists(one, min_size=n, max_size=n))
 
 
-def _op_strategy(dts, weights=(9, 1, 1, 1)):
+def _op_strategy(dts, weights=(9, 1, 1, 1, 1)):
     """One history operation; the kind is one weighted integer draw (one_of would merge identical branches)."""
-    wu, wp, wr, ws = weights
-    total = wu + wp + wr + ws
+    wu, wp, wr, ws, wt = weights
+    total = wu + wp + wr + ws + wt
 
     def mk(t):
         k, ti, dt = t
@@ -635,7 +638,9 @@ def _op_strategy(dts, weights=(9, 1, 1, 1)):
             return ["p"]
         if k < wu + wp + wr:
             return ["r"]
-        return ["restart", dt]
+        if k < wu + wp + wr + ws:
+            return ["restart", dt]
+        return ["t"]
 
     return st.tuples(st.integers(0, total - 1), st.integers(-1, len(TYPES) - 1), st.sampled_from(dts)).map(mk)
 
@@ -661,15 +666,19 @@ def tape_strategy(max_tape):
     return st.tuples(st.integers(0, 5), st.lists(st.integers(0, 4), min_size=max_tape, max_size=max_tape)).map(mk)
 
 
+def opts_strategy():
+    return st.integers(0, 11).map(lambda k: {"timecode": k % 3 == 2, "threaded": k < 9})
+
+
 def case_strategy(max_len, max_tape):
-    return st.tuples(datasets_strategy(), history_strategy(max_len), tape_strategy(max_tape))
+    return st.tuples(datasets_strategy(), history_strategy(max_len), tape_strategy(max_tape), opts_strategy())
 
 
 def small_case_strategy():
     """Small histories whose whole schedule tree is enumerated: two updates that cross a flush (or subdivision)
     deadline, with up to 2 + 1 other operations between and after them."""
     fupd = st.tuples(st.just("u"), st.integers(0, len(TYPES) - 1), st.sampled_from(DTS[2:])).map(list)
-    op = _op_strategy((0, 1), (5, 1, 1, 1))
+    op = _op_strategy((0, 1), (5, 1, 1, 1, 1))
     one = st.fixed_dictionaries({
         "fmt": st.sampled_from(FORMATTERS),
         "types": st.one_of(st.just("ALL"), st.just([1, 2])),
@@ -677,10 +686,18 @@ def small_case_strategy():
     })
     hist = st.tuples(fupd, st.lists(op, max_size=2), fupd, st.lists(op, max_size=1)).map(
         lambda t: [t[0]] + t[1] + [t[2]] + t[3])
-    return st.tuples(st.lists(one, min_size=1, max_size=2), hist)
+    return st.tuples(st.lists(one, min_size=1, max_size=2), hist,
+                     st.integers(0, 3).map(lambda k: {"timecode": k == 3, "threaded": True}))
 
 
-def _account(res: Result, datasets, history, info: CaseInfo, tag=""):
+def _account(res: Result, datasets, history, info: CaseInfo, tag="", opts=None):
+    o = _opts(opts)
+    if o["timecode"]:
+        res.count(f"{tag}with-timecode-headers")
+    if not o["threaded"]:
+        res.count(f"{tag}unthreaded(use_thread=False)")
+    if info.direct_triggers:
+        res.count(f"{tag}with-direct-trigger_write")
     fmts = tuple(sorted({d["fmt"] for d in datasets}))
     has_pause = any(op[0] == "p" for op in history)
     if info.restarts:
@@ -713,7 +730,7 @@ def _account(res: Result, datasets, history, info: CaseInfo, tag=""):
     if info.cycles >= 2 and preempted:
         res.count(f"{tag}nontrivial")
         res.shape(fmts, min(info.cycles, 5), info.preempt[:5], has_pause, has_sub, min(info.n_sub_files, 3),
-                  min(info.timeouts, 3), min(info.restarts, 2))
+                  min(info.timeouts, 3), min(info.restarts, 2), o["timecode"], min(info.direct_triggers, 2))
         return True
     return False
 
@@ -735,16 +752,21 @@ FIXED_DFS = [
     (list(reversed(_ALL3)), [["u", 1, 16], ["u", 2, 1]]),
     (_RAW, [["u", 1, 16], ["restart", 0], ["u", 2, 16]]),
     ([{"fmt": "quicklogger", "types": "ALL", "subdiv": 0}], [["u", 1, 16], ["u", 2, 16], ["restart", 0], ["u", 3, 1]]),
+    # the recording thread calls trigger_write() itself, also while the previous request is still pending
+    (_RAW, [["u", 1, 0], ["t"], ["u", 2, 0], ["t"], ["u", 3, 0]]),
+    (_ALL3, [["u", 1, 16], ["u", 2, 0], ["t"], ["u", 3, 1]], {"timecode": True}),
+    (_ALL3, [["u", 1, 16], ["u", 2, 16], ["t"], ["u", 3, 1]], {"threaded": False}),
 ]
+FIXED_DFS = [(e[0], e[1], e[2] if len(e) > 2 else None) for e in FIXED_DFS]
 
 
-def dfs_history(res: Result, datasets, history, limit, tag="dfs-", max_after=1):
+def dfs_history(res: Result, datasets, history, limit, tag="dfs-", max_after=1, opts=None):
     """Enumerate every schedule of one history.  Violations are collected per key; returns (#schedules, complete)."""
     nt = [0]
 
     def one(prefix):
         try:
-            info = run_case(datasets, history, prefix, sleep_sets=True, max_after=max_after)
+            info = run_case(datasets, history, prefix, sleep_sets=True, max_after=max_after, opts=opts)
         except Violation as v:
             res.add_finding(v.key, v.what + " [found by exhaustive schedule enumeration]", v.trace)
             res.evaluations += 1
@@ -752,7 +774,7 @@ def dfs_history(res: Result, datasets, history, limit, tag="dfs-", max_after=1):
         res.evaluations += 1
         if info.pruned:
             res.count("dfs-schedules-equivalent-to-earlier(sleep-set)")
-        if _account(res, datasets, history, info, tag):
+        if _account(res, datasets, history, info, tag, opts):
             nt[0] += 1
         return info.choices
 
@@ -788,21 +810,21 @@ def shard(seed: int, n_examples: int, max_len: int, max_tape: int, dfs_slice, n_
     res = Result()
 
     def body(v):
-        datasets, history, tape = v
-        info = run_case(datasets, history, tape)
-        if _account(res, datasets, history, info) and len(res.samples) < 2:
-            res.sample(_trace(datasets, history, info.tape))
+        datasets, history, tape, opts = v
+        info = run_case(datasets, history, tape, opts=opts)
+        if _account(res, datasets, history, info, "", opts) and len(res.samples) < 2:
+            res.sample(_trace(datasets, history, info.tape, opts))
 
     hyp_run(body, case_strategy(max_len, max_tape), seed, n_examples, res, collect=True)
 
     # exhaustive schedule enumeration: the fixed slice, then Hypothesis-drawn small histories
-    for datasets, history, limit, max_after in dfs_slice:
-        dfs_history(res, datasets, history, limit, max_after=max_after)
+    for datasets, history, opts, limit, max_after in dfs_slice:
+        dfs_history(res, datasets, history, limit, max_after=max_after, opts=opts)
 
     def body_dfs(v):
-        datasets, history = v
+        datasets, history, opts = v
         res.evaluations -= 1  # hyp_run counts the history; dfs_history counts its schedules
-        dfs_history(res, datasets, history, dfs_limit, max_after=1)
+        dfs_history(res, datasets, history, dfs_limit, max_after=1, opts=opts)
 
     if n_dfs_random:
         hyp_run(body_dfs, small_case_strategy(), seed ^ 0x5EED, n_dfs_random, res, collect=True)
@@ -816,16 +838,16 @@ def run(ctx: RunContext) -> int:
     max_tape = 96 if ctx.quick else 192
     limit = 3000 if ctx.quick else 6000
     # (data sets, history, cap on #schedules, bound on preemptions taken at after-points)
-    work = [(d, h, limit, 1) for d, h in FIXED_DFS]
+    work = [(d, h, o, limit, 1) for d, h, o in FIXED_DFS]
     if not ctx.quick:
-        work += [(d, h, limit, 2) for d, h in FIXED_DFS]
+        work += [(d, h, o, limit, 2) for d, h, o in FIXED_DFS]
         for sub in (0, SUBDIV):
             cfg = [{"fmt": f, "types": "ALL", "subdiv": sub} for f in FORMATTERS]
             for h in small_histories(4):
-                work.append((cfg, h, limit, 0))
+                work.append((cfg, h, None, limit, 0))
             for h in small_histories(3 if sub == 0 else 2):
-                work.append((cfg, h, limit, 1))
-        work.sort(key=lambda w: -(len(w[1]) * (1 + 8 * w[3])))  # expensive trees first, so the shards end together
+                work.append((cfg, h, None, limit, 1))
+        work.sort(key=lambda w: -(len(w[1]) * (1 + 8 * w[4])))  # expensive trees first, so the shards end together
     slices = [work[i::16] for i in range(16)]
     n_dfs = ctx.scale(1, 4)
     res = run_shards(shard, [(derive_seed(ctx.seed, i), n, max_len, max_tape, slices[i], n_dfs, 1000 if ctx.quick else 3000)
@@ -842,7 +864,7 @@ def run(ctx: RunContext) -> int:
 def replay_trace(trace: dict) -> None:
     """Re-execute one concrete case without Hypothesis; raises Violation if C17 still fails on it."""
     history = [h for h in trace["history"] if h[0] != "stop"]
-    run_case(trace["datasets"], history, trace["tape"])
+    run_case(trace["datasets"], history, trace["tape"], opts=trace.get("opts"))
 
 
 def replay(ctx: RunContext, body: dict) -> int:
